@@ -24,7 +24,12 @@ static char t2_hostname[4];
 static time_t t2_now0, t2_roundStartAt0, t2_connectedAt0; static size_t t2_roundCount0, t2_inLen0; static _Bool t2_ready0; static int t2_sockfd0;
 static _Bool t2_has_listener;
 
-#define T_LIM 0x10000000000LL
+#ifndef T_LIM
+#define T_LIM 0x80000000LL      /* |clock values| < 2^31 */
+#endif
+#ifndef OPT_LIM
+#define OPT_LIM 0xffffffffULL   /* time-outs, round duration, requests per round < 2^32 */
+#endif
 static time_t t2_nondet_time(void) { long long t = nondet_ll(); __CPROVER_assume(t > -T_LIM && t < T_LIM); return (time_t)t; }
 
 /* connected: 0 = closed, 1 = connect in progress (half-open), 2 = established */
@@ -32,7 +37,7 @@ static void t2_setup(int connected, size_t qmax) {
 	size_t i;
 	rq.length = t2_req_length; rq.elementAt = t2_req_elementAt; rq.removeElement = t2_req_remove; rq.append = t2_req_append;
 	sq.append = t2_resp_append; sq.length = t2_resp_length; sq.removeElement = t2_resp_remove;
-	for (i = 0; i < __NOF_KSI_ASYNC_OPT; i++) parent.options[i] = nondet_size();
+	for (i = 0; i < __NOF_KSI_ASYNC_OPT; i++) { parent.options[i] = nondet_size(); __CPROVER_assume(parent.options[i] <= OPT_LIM); }
 	t2_has_listener = nondet_bool(); t2_listener_res = nondet_int();
 	parent.options[KSI_ASYNC_OPT_CONNECTION_STATE_CALLBACK] = t2_has_listener ? (size_t)t2_listener : 0;
 	tcp.ctx = NULL; tcp.parent = &parent; tcp.reqQueue = &rq; tcp.respQueue = &sq;
@@ -65,6 +70,7 @@ static void t2_setup(int connected, size_t qmax) {
 	t2_wire_partial = (connected == 2 && t2_qlen > 0) ? t2_h[0].sentCount : 0;
 }
 
+static size_t t2_head_cursor(void) { size_t k, r = 0; for (k = 0; k < T2_QMAX; k++) if (t2_qlen > 0 && k == t2_first) r = t2_h[k].sentCount; return r; }
 static _Bool t2_queued(size_t i) { return i >= t2_first && i < t2_first + t2_qlen; }
 
 /* Inv after the call + exactly-once accounting of the queue */
@@ -100,7 +106,7 @@ static void t2_check_inv(void) {
 			__CPROVER_assert(t2_removed[i] == 0 && t2_released[i] == 0 && t2_written[i] == 0 && t2_h[i].state == t2_state0[i], "frame: handles outside the queue are untouched");
 		}
 	}
-	__CPROVER_assert(IMPLIES(tcp.sockfd != KSI_INVALID_SOCKET, t2_wire_partial == ((t2_qlen > 0) ? t2_h[t2_first < T2_QMAX ? t2_first : 0].sentCount : 0)),
+	__CPROVER_assert(IMPLIES(tcp.sockfd != KSI_INVALID_SOCKET, t2_wire_partial == t2_head_cursor()),
 			"Inv: what was written on the open connection is WHOLE requests plus exactly the head request's send cursor (no half request abandoned on a live connection)");
 }
 
